@@ -78,7 +78,11 @@ RULE = ("T case lines carry, besides the seed, (field 8) whether the template li
         "times around the UTCTime/GeneralizedTime switch, serials, entry extensions, key id, CRL number, extra extensions): the real "
         "TBSCertList bytes must equal the model's; another fifth is a TBSCertificate (CreateCertificate with an SM2 subject key given by its "
         "coordinates, serial, names, validity, key usage, EKUs, basic constraints, key ids, SANs, policies, name constraints): the real "
-        "RawTBSCertificate bytes must equal the model's. Every case is non-trivial; distinct = distinct case text")
+        "RawTBSCertificate bytes must equal the model's. Y cases (6 quick / 40 thorough): HISTORIES of fixed SM2 keys whose public "
+        "coordinates have 0, 1, 2 and 3 leading zero bytes (x, y or both; scalars found off line), in a seed-rotated order: each key issues a "
+        "self-signed CA certificate, a certificate for the next key, a request and a CRL, and after every issuance ALL objects so far are "
+        "verified again under their issuer (must hold), after each key's last object also under every other key used so far (must fail), and public keys must parse back "
+        "to the coordinates (implementation-only: the runner prints SKIP). Every case is non-trivial; distinct = distinct case text")
 
 
 ALGO_ERRORS = ("x509:_requested_SignatureAlgorithm_does_not_match_private_key_type", "x509:_unknown_SignatureAlgorithm",
@@ -87,6 +91,8 @@ ALGO_ERRORS = ("x509:_requested_SignatureAlgorithm_does_not_match_private_key_ty
 
 
 def _same(f, io, mo):
+    if f[0] == "Y":
+        return True                  # histories have no model side (the runner prints SKIP)
     if f[0] == "E":
         return io == mo              # extension bytes and the fields parsed back (or err create / err parse / PANIC)
     return _same_T(f, io, mo)
@@ -313,7 +319,7 @@ def _insecure(f):
 
 
 def nontrivial(f):
-    return (len(f) >= 7 and f[0] == "T") or f[0] == "E"
+    return (len(f) >= 7 and f[0] == "T") or f[0] == "E" or (f[0] == "Y" and len(f) >= 3 and f[2].count(",") >= 2)
 
 
 KNOWN_EKU_OIDS = {"2.5.29.37.0", "1.3.6.1.4.1.311.10.3.3", "2.16.840.1.113730.4.1"} | {"1.3.6.1.5.5.7.3.%d" % i for i in range(1, 10)}
@@ -379,10 +385,32 @@ def _predicate_E(f, io):
     return True, ""
 
 
+def _predicate_Y(f, io):
+    """a history of SM2 keys (public coordinates with leading zero bytes among them): every object issued so far verifies under
+    its issuer, and under no other key used so far, at EVERY point of the history; public keys parse back"""
+    if not io or io[0] in ("PANIC", "HANG"):
+        return False, "implementation " + (io[0] if io else "gave no result")
+    nkeys = f[2].count(",") + 1
+    if io[0] != "ok" or len(io) < 4:
+        return False, "history could not be run (creation / parsing refused for a valid SM2 key): " + " ".join(io)
+    if io[1] != str(4 * nkeys):
+        return False, "history issued %s objects, expected %d" % (io[1], 4 * nkeys)
+    # 4 verification rounds per key: round r of key i checks every object so far under its issuer; the last round of key i
+    # also checks them under the i other keys used so far
+    want = sum(4 * i + r for i in range(nkeys) for r in range(1, 5)) + sum(4 * (i + 1) * i for i in range(nkeys))
+    if io[2] != str(want):
+        return False, "history made %s verification checks, expected %d" % (io[2], want)
+    if io[3] != "-":
+        return False, "history of SM2 keys: " + io[3]
+    return True, ""
+
+
 def _predicate(f, io):
     """the property evaluated on what /repo did (no model involved)"""
     if f[0] == "E":
         return _predicate_E(f, io)
+    if f[0] == "Y":
+        return _predicate_Y(f, io)
     if not io or io[0] in ("PANIC", "HANG"):
         return False, "implementation " + (io[0] if io else "gave no result")
     if io[0] != "ok" or len(io) < 11:
@@ -427,6 +455,8 @@ def _predicate(f, io):
 
 def _classify(f, io):
     """kind:signer:created|rejected[:crossfamily|:insecure][:noverify][:diff][:algsurvivor][:survivor]"""
+    if f[0] == "Y":
+        return "Y:" + ("ok" if io[:1] == ["ok"] and io[3:4] == ["-"] else "fail")
     if f[0] == "E":
         return "E:%s:%s" % (f[2], " ".join(io[:2]) if io and io[0] != "ok" else "ok")
     base = "%s:%s" % (f[2], f[3])
